@@ -7,6 +7,7 @@ import (
 	"go/parser"
 	"go/token"
 	"go/types"
+	"os"
 	"path/filepath"
 	"strings"
 )
@@ -234,71 +235,15 @@ func init() {
 		if perr != nil {
 			return perr
 		}
-		// 5. transport.go: the expiry callback of packetHandlerMap.ReplaceWithClosed deletes an ID only under
-		//    `if h.handlers[id] == handler`
-		tf, err := parse("transport.go")
+		// 5. the expiry path of packetHandlerMap.ReplaceWithClosed (the time.AfterFunc callback and every same-package
+		//    helper it calls) deletes an entry of the handler map only under a comparison of the CURRENT entry with the
+		//    closed stand-in that is being expired. Decided on the semantic shape, see expiryFact below.
+		own, err := expiryFact(c)
 		if err != nil {
 			return err
 		}
-		guarded, unguarded, seen := false, false, false
-		for _, d := range tf.Decls {
-			fd, ok := d.(*ast.FuncDecl)
-			if !ok || fd.Recv == nil || fd.Body == nil || fd.Name.Name != "ReplaceWithClosed" {
-				continue
-			}
-			seen = true
-			isDelete := func(st ast.Stmt) bool {
-				es, ok := st.(*ast.ExprStmt)
-				if !ok {
-					return false
-				}
-				ce, ok := es.X.(*ast.CallExpr)
-				if !ok {
-					return false
-				}
-				id, ok := ce.Fun.(*ast.Ident)
-				return ok && id.Name == "delete"
-			}
-			ast.Inspect(fd.Body, func(nd ast.Node) bool {
-				fl, ok := nd.(*ast.FuncLit) // the time.AfterFunc callback
-				if !ok {
-					return true
-				}
-				ast.Inspect(fl.Body, func(n2 ast.Node) bool {
-					switch x := n2.(type) {
-					case *ast.IfStmt:
-						be, ok := x.Cond.(*ast.BinaryExpr)
-						if ok && be.Op == token.EQL {
-							ix, iok := be.X.(*ast.IndexExpr)
-							rh, rok := be.Y.(*ast.Ident)
-							if iok && rok && rh.Name == "handler" {
-								if se, ok := ix.X.(*ast.SelectorExpr); ok && se.Sel.Name == "handlers" {
-									for _, st := range x.Body.List {
-										if isDelete(st) {
-											guarded = true
-										}
-									}
-									return false
-								}
-							}
-						}
-					case *ast.RangeStmt:
-						for _, st := range x.Body.List {
-							if isDelete(st) {
-								unguarded = true
-							}
-						}
-					}
-					return true
-				})
-				return false
-			})
-		}
-		if !seen {
-			return fmt.Errorf("transport.go: packetHandlerMap.ReplaceWithClosed not found")
-		}
-		w.P("/-- transport.go `ReplaceWithClosed`: the expiry callback deletes an ID only under `if h.handlers[id] == handler` -/")
-		w.P("def expiryDeletesOnlyOwnHandler : Bool := %v", guarded && !unguarded)
+		w.P("/-- transport.go `ReplaceWithClosed`: on the expiry path (timer callback + helpers) every delete from the handler map is guarded by `h.handlers[id] == <the closed stand-in being expired>` -/")
+		w.P("def expiryDeletesOnlyOwnHandler : Bool := %v", own)
 
 		// 6. glue: the server connection's generator is told about exactly the two IDs the server routes to it:
 		//    connection.go newConnection: newConnIDGenerator(runner, srcConnID, &clientDestConnID, …) with clientDestConnID /
@@ -420,4 +365,384 @@ func init() {
 		w.P("def parrotAdvertisedLimits : List Int := [%s]", strings.Join(parrot, ", "))
 		return nil
 	})
+}
+
+// ---------------------------------------------------------------------------------------------------------------
+// expiryFact decides `expiryDeletesOnlyOwnHandler` for the root package, syntactically but on the semantic shape:
+//
+//   - the method ReplaceWithClosed with receiver packetHandlerMap is located (any file of the package);
+//   - the "closed stand-in" names are the identifiers it stores into the handler map (`X.handlers[k] = name`);
+//   - the expiry path starts at the function argument of every time.AfterFunc call reachable from it through
+//     same-package calls: a function literal (captures the names), or a method value / function name (then the
+//     stand-in cannot be followed by name and the fact is an ERROR, not a guess);
+//   - on that path, through same-package helper calls (arguments mapped to parameters by position, so renamed
+//     parameters are fine), every `delete(X.handlers, k)` must be dominated by a test that the current entry for the
+//     same k (`X.handlers[k]`, or a local bound to it) EQUALS a stand-in name: `if cur == standin { delete }`,
+//     a conjunct of `&&`, the else branch of `!=`, or a preceding `if cur != standin { continue / return / break }`.
+//
+// true: at least one delete on the path and all of them guarded. false: some delete is not guarded.
+// error: ReplaceWithClosed, the timer, or any delete on the expiry path cannot be found (the code changed shape in a
+// way this extractor does not understand: fail loudly instead of silently flipping the fact).
+func expiryFact(c *Ctx) (bool, error) {
+	files, err := filepath.Glob(filepath.Join(c.Repo, "*.go"))
+	if err != nil {
+		return false, err
+	}
+	type fn struct {
+		recv string // receiver base type name, "" for functions
+		decl *ast.FuncDecl
+	}
+	byName := map[string][]fn{}
+	for _, path := range files {
+		if strings.HasSuffix(path, "_test.go") {
+			continue
+		}
+		f, err := parser.ParseFile(c.Fset, path, nil, 0)
+		if err != nil {
+			return false, err
+		}
+		for _, d := range f.Decls {
+			fd, ok := d.(*ast.FuncDecl)
+			if !ok || fd.Body == nil {
+				continue
+			}
+			recv := ""
+			if fd.Recv != nil && len(fd.Recv.List) == 1 {
+				t := fd.Recv.List[0].Type
+				if st, ok := t.(*ast.StarExpr); ok {
+					t = st.X
+				}
+				if id, ok := t.(*ast.Ident); ok {
+					recv = id.Name
+				} else {
+					continue // generic receivers: not the handler map
+				}
+			}
+			byName[fd.Name.Name] = append(byName[fd.Name.Name], fn{recv, fd})
+		}
+	}
+	var root *ast.FuncDecl
+	for _, f := range byName["ReplaceWithClosed"] {
+		if f.recv == "packetHandlerMap" {
+			root = f.decl
+		}
+	}
+	if root == nil {
+		return false, fmt.Errorf("expiryDeletesOnlyOwnHandler: method packetHandlerMap.ReplaceWithClosed not found in the root package")
+	}
+	str := func(e ast.Expr) string { return types.ExprString(e) }
+	isHandlers := func(e ast.Expr) (key string, ok bool) { // X.handlers[k]
+		ix, ok := e.(*ast.IndexExpr)
+		if !ok {
+			return "", false
+		}
+		se, ok := ix.X.(*ast.SelectorExpr)
+		if !ok || se.Sel.Name != "handlers" {
+			return "", false
+		}
+		return str(ix.Index), true
+	}
+	paramNames := func(fd *ast.FuncDecl) []string {
+		var out []string
+		for _, f := range fd.Type.Params.List {
+			if len(f.Names) == 0 {
+				out = append(out, "_")
+			}
+			for _, n := range f.Names {
+				out = append(out, n.Name)
+			}
+		}
+		return out
+	}
+	// callees of a call expression inside the package: plain `f(…)` or `x.m(…)` with x an identifier
+	callees := func(ce *ast.CallExpr) []*ast.FuncDecl {
+		var name string
+		method := false
+		switch f := ce.Fun.(type) {
+		case *ast.Ident:
+			name = f.Name
+		case *ast.SelectorExpr:
+			if _, ok := f.X.(*ast.Ident); !ok {
+				return nil
+			}
+			name, method = f.Sel.Name, true
+		default:
+			return nil
+		}
+		var pref, all []*ast.FuncDecl
+		for _, cand := range byName[name] {
+			if (cand.recv != "") != method {
+				continue
+			}
+			all = append(all, cand.decl)
+			if cand.recv == "packetHandlerMap" || cand.recv == "Transport" {
+				pref = append(pref, cand.decl)
+			}
+		}
+		if len(pref) > 0 {
+			return pref
+		}
+		return all
+	}
+
+	// stand-in names of the root: identifiers stored into the handler map
+	standins := map[string]bool{}
+	ast.Inspect(root.Body, func(n ast.Node) bool {
+		as, ok := n.(*ast.AssignStmt)
+		if !ok || len(as.Lhs) != 1 || len(as.Rhs) != 1 {
+			return true
+		}
+		if _, ok := isHandlers(as.Lhs[0]); ok {
+			if id, ok := as.Rhs[0].(*ast.Ident); ok {
+				standins[id.Name] = true
+			}
+		}
+		return true
+	})
+	if len(standins) == 0 {
+		return false, fmt.Errorf("expiryDeletesOnlyOwnHandler: %s: no `….handlers[id] = <stand-in>` in ReplaceWithClosed", c.pos(root.Pos()))
+	}
+
+	nGuarded, nUnguarded := 0, 0
+	var firstUnguarded token.Pos
+	var ferr error
+	type frame struct {
+		standins map[string]bool
+		entries  map[string]string // local variable -> key it was read for (`cur := X.handlers[k]`)
+	}
+	var walkStmts func(list []ast.Stmt, fr *frame, guarded map[string]bool, depth int)
+	var walkFunc func(fd *ast.FuncDecl, args []ast.Expr, callerFr *frame, callerGuarded map[string]bool, depth int)
+
+	// does `cond` being TRUE imply entry(k) == stand-in? returns the keys; neg: does cond being FALSE imply it
+	var guardKeys func(cond ast.Expr, fr *frame, positive bool) []string
+	guardKeys = func(cond ast.Expr, fr *frame, positive bool) []string {
+		switch x := cond.(type) {
+		case *ast.ParenExpr:
+			return guardKeys(x.X, fr, positive)
+		case *ast.UnaryExpr:
+			if x.Op == token.NOT {
+				return guardKeys(x.X, fr, !positive)
+			}
+		case *ast.BinaryExpr:
+			if (x.Op == token.LAND && positive) || (x.Op == token.LOR && !positive) {
+				return append(guardKeys(x.X, fr, positive), guardKeys(x.Y, fr, positive)...)
+			}
+			if (x.Op == token.EQL && positive) || (x.Op == token.NEQ && !positive) {
+				for _, p := range [][2]ast.Expr{{x.X, x.Y}, {x.Y, x.X}} {
+					key, ok := isHandlers(p[0])
+					if !ok {
+						if id, isID := p[0].(*ast.Ident); isID {
+							key, ok = fr.entries[id.Name]
+						}
+					}
+					if !ok {
+						continue
+					}
+					if id, isID := p[1].(*ast.Ident); isID && fr.standins[id.Name] {
+						return []string{key}
+					}
+				}
+			}
+		}
+		return nil
+	}
+	bindEntry := func(st ast.Stmt, fr *frame) {
+		as, ok := st.(*ast.AssignStmt)
+		if !ok || len(as.Rhs) != 1 || len(as.Lhs) == 0 {
+			return
+		}
+		if key, ok := isHandlers(as.Rhs[0]); ok {
+			if id, ok := as.Lhs[0].(*ast.Ident); ok {
+				fr.entries[id.Name] = key
+			}
+		}
+	}
+	leaves := func(b *ast.BlockStmt) bool { // the block always leaves the enclosing iteration / function
+		if b == nil || len(b.List) == 0 {
+			return false
+		}
+		switch x := b.List[len(b.List)-1].(type) {
+		case *ast.ReturnStmt:
+			return true
+		case *ast.BranchStmt:
+			return x.Tok == token.CONTINUE || x.Tok == token.BREAK
+		}
+		return false
+	}
+	with := func(g map[string]bool, keys []string) map[string]bool {
+		if len(keys) == 0 {
+			return g
+		}
+		out := map[string]bool{}
+		for k := range g {
+			out[k] = true
+		}
+		for _, k := range keys {
+			out[k] = true
+		}
+		return out
+	}
+	var visitCalls func(n ast.Node, fr *frame, guarded map[string]bool, depth int)
+	visitCalls = func(n ast.Node, fr *frame, guarded map[string]bool, depth int) {
+		if n == nil {
+			return
+		}
+		ast.Inspect(n, func(nd ast.Node) bool {
+			switch x := nd.(type) {
+			case *ast.FuncLit:
+				// a nested closure (e.g. a deferred func): part of the path, same names
+				walkStmts(x.Body.List, fr, guarded, depth)
+				return false
+			case *ast.CallExpr:
+				if id, ok := x.Fun.(*ast.Ident); ok && id.Name == "delete" && len(x.Args) == 2 {
+					if se, ok := x.Args[0].(*ast.SelectorExpr); ok && se.Sel.Name == "handlers" {
+						if guarded[str(x.Args[1])] {
+							nGuarded++
+						} else {
+							if nUnguarded == 0 {
+								firstUnguarded = x.Pos()
+							}
+							nUnguarded++
+						}
+						return true
+					}
+				}
+				for _, fd := range callees(x) {
+					walkFunc(fd, x.Args, fr, guarded, depth+1)
+				}
+			}
+			return true
+		})
+	}
+	walkStmts = func(list []ast.Stmt, fr *frame, guarded map[string]bool, depth int) {
+		for _, st := range list {
+			switch x := st.(type) {
+			case *ast.BlockStmt:
+				walkStmts(x.List, fr, guarded, depth)
+			case *ast.LabeledStmt:
+				walkStmts([]ast.Stmt{x.Stmt}, fr, guarded, depth)
+			case *ast.IfStmt:
+				if x.Init != nil {
+					bindEntry(x.Init, fr)
+					visitCalls(x.Init, fr, guarded, depth)
+				}
+				visitCalls(x.Cond, fr, guarded, depth)
+				walkStmts(x.Body.List, fr, with(guarded, guardKeys(x.Cond, fr, true)), depth)
+				neg := guardKeys(x.Cond, fr, false)
+				if x.Else != nil {
+					walkStmts([]ast.Stmt{x.Else}, fr, with(guarded, neg), depth)
+				} else if leaves(x.Body) {
+					guarded = with(guarded, neg) // `if cur != standin { continue }`: the rest of the block is guarded
+				}
+			case *ast.ForStmt:
+				visitCalls(x.Init, fr, guarded, depth)
+				if x.Cond != nil {
+					visitCalls(x.Cond, fr, guarded, depth)
+				}
+				visitCalls(x.Post, fr, guarded, depth)
+				walkStmts(x.Body.List, fr, guarded, depth)
+			case *ast.RangeStmt:
+				visitCalls(x.X, fr, guarded, depth)
+				walkStmts(x.Body.List, fr, guarded, depth)
+			case *ast.SwitchStmt:
+				visitCalls(x.Init, fr, guarded, depth)
+				if x.Tag != nil {
+					visitCalls(x.Tag, fr, guarded, depth)
+				}
+				for _, cc := range x.Body.List {
+					walkStmts(cc.(*ast.CaseClause).Body, fr, guarded, depth)
+				}
+			case *ast.TypeSwitchStmt:
+				for _, cc := range x.Body.List {
+					walkStmts(cc.(*ast.CaseClause).Body, fr, guarded, depth)
+				}
+			case *ast.SelectStmt:
+				for _, cc := range x.Body.List {
+					walkStmts(cc.(*ast.CommClause).Body, fr, guarded, depth)
+				}
+			default:
+				bindEntry(st, fr)
+				visitCalls(st, fr, guarded, depth)
+			}
+		}
+	}
+	visited := map[*ast.FuncDecl]int{}
+	walkFunc = func(fd *ast.FuncDecl, args []ast.Expr, callerFr *frame, callerGuarded map[string]bool, depth int) {
+		if depth > 6 || visited[fd] > 4 {
+			return
+		}
+		visited[fd]++
+		fr := &frame{standins: map[string]bool{}, entries: map[string]string{}}
+		guarded := map[string]bool{}
+		ps := paramNames(fd)
+		for i, a := range args {
+			if i >= len(ps) {
+				break
+			}
+			if id, ok := a.(*ast.Ident); ok && callerFr.standins[id.Name] {
+				fr.standins[ps[i]] = true
+			}
+			if callerGuarded[str(a)] { // a key that is guarded at the call site stays guarded under the parameter's name
+				guarded[ps[i]] = true
+			}
+		}
+		walkStmts(fd.Body.List, fr, guarded, depth)
+	}
+
+	// the timers reachable from ReplaceWithClosed
+	timers := 0
+	var findTimers func(body *ast.BlockStmt, fr *frame, depth int, seen map[*ast.FuncDecl]bool)
+	findTimers = func(body *ast.BlockStmt, fr *frame, depth int, seen map[*ast.FuncDecl]bool) {
+		ast.Inspect(body, func(nd ast.Node) bool {
+			ce, ok := nd.(*ast.CallExpr)
+			if !ok {
+				return true
+			}
+			if se, ok := ce.Fun.(*ast.SelectorExpr); ok && se.Sel.Name == "AfterFunc" && len(ce.Args) == 2 {
+				if pk, ok := se.X.(*ast.Ident); ok && pk.Name == "time" {
+					timers++
+					switch f := ce.Args[1].(type) {
+					case *ast.FuncLit:
+						walkStmts(f.Body.List, &frame{standins: fr.standins, entries: map[string]string{}}, map[string]bool{}, 0)
+					default:
+						if ferr == nil {
+							ferr = fmt.Errorf("expiryDeletesOnlyOwnHandler: %s: time.AfterFunc is given %s, not a function literal: the closed stand-in cannot be followed by name into it", c.pos(ce.Pos()), str(ce.Args[1]))
+						}
+					}
+					return false
+				}
+			}
+			if depth < 4 {
+				for _, fd := range callees(ce) {
+					if seen[fd] {
+						continue
+					}
+					seen[fd] = true
+					sub := &frame{standins: map[string]bool{}, entries: map[string]string{}}
+					ps := paramNames(fd)
+					for i, a := range ce.Args {
+						if id, ok := a.(*ast.Ident); ok && i < len(ps) && fr.standins[id.Name] {
+							sub.standins[ps[i]] = true
+						}
+					}
+					findTimers(fd.Body, sub, depth+1, seen)
+				}
+			}
+			return true
+		})
+	}
+	findTimers(root.Body, &frame{standins: standins, entries: map[string]string{}}, 0, map[*ast.FuncDecl]bool{root: true})
+	if ferr != nil {
+		return false, ferr
+	}
+	if timers == 0 {
+		return false, fmt.Errorf("expiryDeletesOnlyOwnHandler: %s: no time.AfterFunc reachable from packetHandlerMap.ReplaceWithClosed: expiry path not found", c.pos(root.Pos()))
+	}
+	if nGuarded+nUnguarded == 0 {
+		return false, fmt.Errorf("expiryDeletesOnlyOwnHandler: %s: the expiry path of ReplaceWithClosed contains no delete(….handlers, id) (looked through same-package helper calls)", c.pos(root.Pos()))
+	}
+	if nUnguarded > 0 {
+		fmt.Fprintf(os.Stderr, "gofacts ConnID: unguarded delete from the handler map on the expiry path at %s\n", c.pos(firstUnguarded))
+	}
+	return nUnguarded == 0, nil
 }
